@@ -8,6 +8,7 @@ CONSTANTS
   EditBudget = 1
   AnnBudget = 1
   EnvKinds = {"unready", "fail", "restart", "dup", "node"}
+  FaultBudget = 0
   MaxPerNode = 3
   AgeCap = 2
   KnownFindings = {"F-stale-nodes"}
